@@ -53,8 +53,9 @@ type wbEnv struct {
 }
 
 func (e *wbEnv) ev(kind, who, path, info string) int64 {
-	s := e.seq.Add(1)
+	// the sequence number is drawn under the lock: the order of the log is the order of the numbers
 	e.mu.Lock()
+	s := e.seq.Add(1)
 	e.events = append(e.events, wbEvent{s, kind, who, path, info})
 	e.mu.Unlock()
 	return s
@@ -62,9 +63,9 @@ func (e *wbEnv) ev(kind, who, path, info string) int64 {
 
 // Log implements pathManagerParent.
 func (e *wbEnv) Log(_ logger.Level, format string, args ...any) {
-	s := e.seq.Add(1)
 	line := fmt.Sprintf(format, args...)
 	e.mu.Lock()
+	s := e.seq.Add(1)
 	e.logs = append(e.logs, wbEvent{Seq: s, Kind: "log", Info: line})
 	e.mu.Unlock()
 }
